@@ -49,7 +49,11 @@ func ReceiveNoHash(ctx context.Context, dst BlobReceiver, br blob.Ref, src io.Re
 }
 
 func receive(ctx context.Context, dst BlobReceiver, br blob.Ref, src io.Reader, checkHash bool) (sb blob.SizedRef, err error) {
-	src = io.LimitReader(src, MaxBlobSize)
+	// One byte more than the limit is let through so that an oversized
+	// source is told apart from one of exactly the maximum size and is
+	// refused, instead of being silently truncated to a prefix (which may
+	// even hash to br).
+	src = &maxSizeReader{src: io.LimitReader(src, MaxBlobSize+1)}
 	if checkHash {
 		h := br.Hash()
 		if h == nil {
@@ -66,6 +70,26 @@ func receive(ctx context.Context, dst BlobReceiver, br blob.Ref, src io.Reader, 
 	}
 	err = GetHub(dst).NotifyBlobReceived(sb)
 	return
+}
+
+// errBlobTooLarge is returned by receive's source reader when the source
+// holds more than MaxBlobSize bytes.
+var errBlobTooLarge = fmt.Errorf("blob is larger than the %d byte limit", MaxBlobSize)
+
+// maxSizeReader is an io.Reader that fails with errBlobTooLarge once more
+// than MaxBlobSize bytes have been read from src.
+type maxSizeReader struct {
+	src io.Reader
+	n   int64
+}
+
+func (r *maxSizeReader) Read(p []byte) (n int, err error) {
+	n, err = r.src.Read(p)
+	r.n += int64(n)
+	if r.n > MaxBlobSize {
+		return n, errBlobTooLarge
+	}
+	return n, err
 }
 
 // checkHashReader is an io.Reader that wraps the src Reader but turns
